@@ -68,8 +68,25 @@ def make_signals(d):
         t = np.arange(N)
         for (i, fr, amp, ph) in d["tone"]:
             x[i] += amp * np.sin(2 * np.pi * fr * t + ph)
+    if d.get("offset"):
+        x += np.array(d["offset"])[:, None]
     x *= np.array(d["scale"])[:, None]
     return x[:M].copy(), x[M].copy()
+
+
+def shape_form(x, form):
+    """the same numbers in another memory layout"""
+    if form == "fortran":
+        return np.asfortranarray(x)
+    if form == "strided":
+        big = np.zeros((x.shape[0], 2 * x.shape[1]))
+        big[:, ::2] = x
+        return big[:, ::2]
+    if form == "rowstrided":
+        big = np.zeros((2 * x.shape[0], x.shape[1]))
+        big[::2] = x
+        return big[::2]
+    return x
 
 
 def gen_input(rng, quick, big=False, kind=None, M=None):
@@ -83,14 +100,15 @@ def gen_input(rng, quick, big=False, kind=None, M=None):
     else:
         M = rng.choice([2, 3, 3, 4])
     if big:
-        N = rng.choice([256, 500, 1024, 2048])
+        N = rng.choice([64, 65, 127, 256, 257, 500, 509, 1000, 1024, 1025, 2047, 2048, 2048])
     elif meth == "welch":
         N = rng.choice([64, 80, 100, 128] if quick else [64, 100, 128, 200, 256])
     else:
         N = rng.choice([64, 64, 65] if quick else [64, 65, 72, 96, 128])
     if meth == "welch":
-        NFFT = rng.choice([16, 16, 32, 15, 24] if not big else [32, 64, 63, 128])
-        n_overlap = rng.choice([0, NFFT // 2, NFFT // 4, NFFT - 3])
+        NFFT = rng.choice([16, 16, 32, 15, 24] if not big else
+                          [n for n in (16, 31, 32, 64, 63, 128, 127, 255, 256, 512, 513, 1024) if 2 * n <= max(N, 64)] or [16])
+        n_overlap = rng.choice([0, NFFT // 2, NFFT // 4, NFFT - 3, NFFT - 1, (NFFT + 1) // 2])
         method = {"this_method": "welch", "NFFT": NFFT, "n_overlap": n_overlap}
     elif meth == "periodogram":
         method = {"this_method": "periodogram_csd"}
@@ -111,10 +129,33 @@ def gen_input(rng, quick, big=False, kind=None, M=None):
         for i in range(M + 1):
             if rng.random() < 0.6:
                 tone.append((i, fr, round(rng.uniform(0.3, 2), 2), round(rng.uniform(0, 6.28), 2)))
-    scale = [rng.choice([1.0, 1.0, 0.01, 37.5, 3.0, 0.2, 1000.0]) for _ in range(M + 1)]
-    gains = [rng.choice([1.0, -1.0, -2.5, 3.0, 0.125, -0.3, 40.0]) for _ in range(M + 1)]
-    if all(g > 0 for g in gains):
-        gains[rng.randrange(M)] = -1.75
+    # magnitudes: power-of-two factors between 2^-60 and 2^40 (exactly scalable), per channel; the gains of the
+    # gain re-run are of either sign, small as well as large, and keep scale*gain inside the same range
+    lo, hi = (-60, 40) if big else (-40, 30)
+    regime = rng.choice(["unit", "tiny", "huge", "mixed", "mixed"])
+    scale, gains = [], []
+    for _ in range(M + 1):
+        if regime == "unit":
+            a = rng.choice([0, 0, -7, 5, 10, -2])
+        elif regime == "tiny":
+            a = rng.randint(lo, -15)
+        elif regime == "huge":
+            a = rng.randint(10, hi)
+        else:
+            a = rng.randint(lo, hi)
+        b = rng.randint(max(lo - a, -45), min(hi - a, 40))
+        scale.append(2.0 ** a * (1.0 if regime != "unit" else rng.choice([1.0, 1.0, 3.0, 0.01])))
+        g = rng.choice([-1.0, 1.0]) * 2.0 ** b
+        if rng.random() < 0.25:
+            g *= rng.choice([1.5, 1e-3, 0.3])
+        gains.append(g)
+    if all(g > 0 for g in gains[:-1]):
+        gains[rng.randrange(M)] *= -1.0
+    if all(abs(g) >= 2.0 ** -10 for g in gains[:-1]):      # at least one small gain
+        k = rng.randrange(M)
+        gains[k] = math.copysign(2.0 ** max(-30, lo - int(math.log2(scale[k]))), gains[k])
+    offset = [rng.choice([0.0, 0.0, 0.5, -3.0, 40.0]) for _ in range(M + 1)]
+    form = rng.choice(["plain", "plain", "fortran", "strided", "rowstrided", "nokey", "positional"])
     # a band
     r = rng.random()
     nyq = Fs / 2
@@ -146,7 +187,8 @@ def gen_input(rng, quick, big=False, kind=None, M=None):
             if ub is not None:
                 ub = None
     return {"seed": rng.randrange(10 ** 6), "M": M, "N": N, "method": method, "mix": mix, "tone": tone,
-            "scale": scale, "gains": gains, "lb": lb, "ub": ub, "kind": meth, "big": big}
+            "scale": scale, "gains": gains, "offset": offset, "form": form,
+            "lb": lb, "ub": ub, "kind": meth, "big": big}
 
 
 # ------------------------------------------------------------------ running the implementation
@@ -159,6 +201,39 @@ def herm_complete(S):
     return S
 
 
+def independent_spectra(xall, d):
+    """cross-spectra of all rows of xall straight from the definition (numpy FFT only), up to one global
+    positive constant (which cancels in every quantity of this property); None for multitaper."""
+    m = d["method"]
+    N = xall.shape[1]
+    if m["this_method"] == "welch":
+        NFFT, nov = m["NFFT"], m["n_overlap"]
+        win = np.hanning(NFFT)
+        starts = range(0, N - NFFT + 1, NFFT - nov)
+        X = np.array([[np.fft.fft(row[s0:s0 + NFFT] * win) for s0 in starts] for row in xall])
+        n = NFFT
+    elif m["this_method"] == "periodogram_csd":
+        X = np.array([[np.fft.fft(row)] for row in xall])
+        n = N
+    else:
+        return None
+    nf = n // 2 + 1
+    X = X[:, :, :nf]
+    S = np.einsum('ask,bsk->abk', X, X.conj()) / X.shape[1]
+    dbl = np.full(nf, 2.0)
+    dbl[0] = 1.0
+    if n % 2 == 0:
+        dbl[-1] = 1.0
+    return S * dbl
+
+
+def normalised_inverse_partial(S3):
+    """|G_xy|^2/(G_xx G_yy) with G the inverse of the 3x3 matrix, computed on the matrix scaled to unit
+    diagonal (the value is invariant, the conditioning no longer depends on the channel amplitudes)"""
+    dg = np.sqrt(np.array([S3[i, i].real for i in range(3)]))
+    return inverse_partial(S3 / (dg[:, None, :] * dg[None, :, :]))
+
+
 class Run:
     """everything the implementation returns for one input description"""
 
@@ -169,9 +244,16 @@ class Run:
         from nitime.timeseries import TimeSeries
         from nitime.analysis import CoherenceAnalyzer, MTCoherenceAnalyzer
         self.d = self.d0 = d
-        x, r = make_signals(d)
+        x0, r0 = make_signals(d)
+        self.x0, self.r0 = x0, r0                      # contiguous copies, for the independent references
+        form = d.get("form", "plain")
+        x = shape_form(x0, form)
+        r = shape_form(r0[None, :], form if form in ("fortran", "strided") else "plain")[0]
         self.x, self.r = x, r
-        m = d["method"]
+        m = dict(d["method"])
+        if form == "nokey" and m["this_method"] == "welch":
+            del m["this_method"]                       # 'welch' is the documented default
+        pos = form == "positional"
         self.f, self.S = tsa.get_spectra(x, dict(m))
         d = dict(d)
         for key in ("lb", "ub"):       # ["grid", k] -> the k-th grid frequency
@@ -181,24 +263,32 @@ class Run:
         self.fn = {}
         f, self.fn["coherence"] = coh.coherence(x, dict(m))
         f, self.fn["coherency"] = coh.coherency(x, dict(m))
-        self.fn["coherence_bavg"] = coh.coherence_bavg(x, lb=d["lb"], ub=d["ub"], csd_method=dict(m))
-        self.fn["coherency_bavg"] = coh.coherency_bavg(x, lb=d["lb"], ub=d["ub"], csd_method=dict(m))
-        f, self.fn["phase"] = coh.coherency_phase_spectrum(x, dict(m))
-        self.fdel, self.fn["delay"] = coh.coherency_phase_delay(x, lb=d["lb"], ub=d["ub"], csd_method=dict(m))
+        if pos:
+            self.fn["coherence_bavg"] = coh.coherence_bavg(x, d["lb"], d["ub"], dict(m))
+            self.fn["coherency_bavg"] = coh.coherency_bavg(x, d["lb"], d["ub"], dict(m))
+            self.fdel, self.fn["delay"] = coh.coherency_phase_delay(x, d["lb"], d["ub"], dict(m))
+        else:
+            self.fn["coherence_bavg"] = coh.coherence_bavg(x, lb=d["lb"], ub=d["ub"], csd_method=dict(m))
+            self.fn["coherency_bavg"] = coh.coherency_bavg(x, lb=d["lb"], ub=d["ub"], csd_method=dict(m))
+            self.fdel, self.fn["delay"] = coh.coherency_phase_delay(x, lb=d["lb"], ub=d["ub"], csd_method=dict(m))
+        f, self.fn["phase"] = coh.coherency_phase_spectrum(x, csd_method=dict(m))
         self.partial_ok = d["kind"] != "periodogram"
         if self.partial_ok:
-            f, self.fn["partial"] = coh.coherence_partial(x, r, dict(m))
+            if pos:
+                f, self.fn["partial"] = coh.coherence_partial(x, r, dict(m))
+            else:
+                f, self.fn["partial"] = coh.coherence_partial(time_series=x, r=r, csd_method=dict(m))
             self.bi = [tsa.get_spectra_bi(x[i], r, dict(m)) for i in range(d["M"])]
         # analyzers on the same data
         ts = TimeSeries(x, sampling_rate=m["Fs"])
-        A = CoherenceAnalyzer(ts, method=dict(m))
+        A = CoherenceAnalyzer(ts, dict(m)) if pos else CoherenceAnalyzer(input=ts, method=dict(m))
         self.an = {"coherence": A.coherence, "coherency": A.coherency, "phase": A.phase, "delay": A.delay,
                    "frequencies": np.asarray(A.frequencies), "spectrum": A.spectrum}
         if self.partial_ok:
             self.an["partial"] = A.coherence_partial
         # multitaper analyzer (its own estimator: dpss tapers + mtm_cross_spectrum)
         self.mt = None
-        if d["kind"] in ("mt", "mt_adaptive") and d["N"] <= 300:
+        if d["kind"] in ("mt", "mt_adaptive") and d["N"] <= 520:
             MT = MTCoherenceAnalyzer(ts, adaptive=d["kind"] == "mt_adaptive")
             Mch = d["M"]
             L = MT._L
@@ -220,16 +310,25 @@ class Run:
             f, G["coherence"] = coh.coherence(xg, dict(m))
             f, G["coherency"] = coh.coherency(xg, dict(m))
             G["coherence_bavg"] = coh.coherence_bavg(xg, lb=d["lb"], ub=d["ub"], csd_method=dict(m))
+            G["coherency_bavg"] = coh.coherency_bavg(xg, lb=d["lb"], ub=d["ub"], csd_method=dict(m))
+            f, G["phase"] = coh.coherency_phase_spectrum(xg, dict(m))
+            fd, G["delay"] = coh.coherency_phase_delay(xg, lb=d["lb"], ub=d["ub"], csd_method=dict(m))
             if self.partial_ok:
                 f, G["partial"] = coh.coherence_partial(xg, rg, dict(m))
             Ag = CoherenceAnalyzer(TimeSeries(xg, sampling_rate=m["Fs"]), method=dict(m))
             G["an_coherence"] = Ag.coherence
             G["an_coherency"] = Ag.coherency
+            G["an_phase"] = Ag.phase
+            G["an_delay"] = Ag.delay
+            if self.partial_ok:
+                G["an_partial"] = Ag.coherence_partial
             if self.mt is not None:
                 G["mt_coherence"] = MTCoherenceAnalyzer(TimeSeries(xg, sampling_rate=m["Fs"]),
                                                         adaptive=d["kind"] == "mt_adaptive").coherence
             self.g = G
         self.bounds = utils.get_bounds(self.f, d["lb"], d["ub"])
+        # independent reference spectra (channels 0..M-1 and r as channel M)
+        self.Sind = independent_spectra(np.vstack([x0, r0[None, :]]), d)
 
 
 # ------------------------------------------------------------------ K cases
@@ -385,8 +484,15 @@ def oracle(R):
     elif R.bounds[1] - max(R.bounds[0], 1 if d["lb"] == 0 else 0) > 0:
         fail("coherence_bavg", "finite", "non-finite band average on a non-empty band")
     # the band: exactly the grid frequencies in [lb, ub] (DC left out when lb == 0)
-    S = np.asarray(R.S)
+    S = np.asarray(R.S) if R.Sind is None else R.Sind
     fgrid = np.asarray(R.f)
+    if R.Sind is not None:     # the grid from the definition: k * Fs / n
+        n_ = d["method"].get("NFFT", d["N"]) if d["method"]["this_method"] == "welch" else d["N"]
+        fdef = np.arange(S.shape[-1]) * (d["method"]["Fs"] / n_)
+        if fdef.shape != fgrid.shape or np.abs(fdef - fgrid).max() > 1e-9 * d["method"]["Fs"]:
+            fail("get_spectra", "grid", "frequency grid is not k*Fs/NFFT", None, None)
+        else:
+            fgrid = np.where(np.abs(fdef - fgrid) <= 1e-12 * d["method"]["Fs"], fgrid, fdef)
     sel = fgrid >= d["lb"]
     if d["ub"] is not None:
         sel &= fgrid <= d["ub"]
@@ -428,15 +534,35 @@ def oracle(R):
         if np.abs(pf.imag).max() > 0:
             fail("coherence_partial", "real", "partial coherence has an imaginary part")
         pf = pf.real
-        check_coh("coherence_partial", pf)
+        # conditioning: the formula divides by D = (1-|R_xr|^2)(1-|R_yr|^2); rounding errors are ~ eps/D
+        cr = np.array([np.abs(b[3]) ** 2 / (b[1] * b[2]) for b in R.bi])          # coherence of x_i with r
+        Dfn = np.maximum((1 - cr)[:, None, :] * (1 - cr)[None, :, :], 1e-300)
+        tolfn = TOL + 1e-13 / Dfn
+        if _bad(pf):
+            fail("coherence_partial", "finite", "non-finite value", None, "finite")
+        else:
+            if (pf < -tolfn).any() or (pf > 1 + tolfn).any():
+                fail("coherence_partial", "bounds", "value outside [0,1]", [float(pf.min()), float(pf.max())], "[0,1]")
+            if np.abs(pf - np.swapaxes(pf, 0, 1)).max() > 0:
+                fail("coherence_partial", "symmetry", "c[i][j] != c[j][i]")
+            dgp = np.array([pf[i, i] for i in range(M)])
+            tdg = np.array([tolfn[i, i] for i in range(M)])
+            if (np.abs(dgp - 1) > tdg).any():
+                fail("coherence_partial", "self", "partial coherence of a channel with itself is not 1",
+                     float(dgp.flat[np.argmax(np.abs(dgp - 1) - tdg)]), 1)
         pa = np.asarray(an["partial"])
+        can = np.asarray(an["coherence"])
         worst = (0.0, None)
         for i in range(M):
             for j in range(M):
                 if i == j:
                     continue
-                f3_, S3 = tsa.get_spectra(np.vstack([R.x[i], R.x[j], R.r]), dict(d["method"]))
-                iv = inverse_partial(herm_complete(S3))
+                if R.Sind is not None:
+                    S3 = R.Sind[np.ix_([i, j, M], [i, j, M])]
+                else:
+                    f3_, S3 = tsa.get_spectra(np.vstack([R.x0[i], R.x0[j], R.r0]), dict(d["method"]))
+                    S3 = herm_complete(S3)
+                iv = normalised_inverse_partial(S3)
                 ok = np.isfinite(iv)
                 if ok.any():
                     e = np.abs(pf[i, j][ok] - iv[ok]).max()
@@ -454,18 +580,22 @@ def oracle(R):
                             fail("an.coherence_partial", "excluded", "entry with r in {i,j} is not 0")
                         continue
                     v = pa[i, j, r]
-                    if _bad(v) or v.min() < -TOL or v.max() > 1 + TOL:
+                    tol_ = TOL + 1e-13 / np.maximum((1 - can[i, r]) * (1 - can[j, r]), 1e-300)
+                    if _bad(v) or (v < -tol_).any() or (v > 1 + tol_).any():
                         fail("an.coherence_partial", "bounds", "value outside [0,1]",
                              [float(np.nanmin(v)), float(np.nanmax(v))], "[0,1]")
                     if np.abs(v - pa[j, i, r]).max() > 0:
                         fail("an.coherence_partial", "symmetry", "p[i][j][r] != p[j][i][r]")
                     if i == j:
-                        if np.abs(v - 1).max() > 1e-6:
+                        if (np.abs(v - 1) > tol_).any():
                             fail("an.coherence_partial", "self", "partial coherence of a channel with itself is not 1",
                                  float(v.flat[np.argmax(np.abs(v - 1))]), 1)
                         continue
-                    S3 = herm_complete(np.asarray(an["spectrum"]))[np.ix_([i, j, r], [i, j, r])]
-                    iv = inverse_partial(S3)
+                    if R.Sind is not None:
+                        S3 = R.Sind[np.ix_([i, j, r], [i, j, r])]
+                    else:
+                        S3 = herm_complete(np.asarray(an["spectrum"]))[np.ix_([i, j, r], [i, j, r])]
+                    iv = normalised_inverse_partial(S3)
                     ok = np.isfinite(iv)
                     if ok.any():
                         e = np.abs(v[ok] - iv[ok]).max()
@@ -477,6 +607,51 @@ def oracle(R):
     # multitaper analyzer
     if R.mt is not None:
         check_coh("mt.coherence", R.mt["coherence"])
+    # the definitions, from spectra recomputed with numpy alone (Welch, periodogram)
+    if R.Sind is not None:
+        Sd = R.Sind[:M, :M]
+        dg = np.array([Sd[i, i].real for i in range(M)])
+        den = dg[:, None, :] * dg[None, :, :]
+        cdef = np.abs(Sd) ** 2 / den
+        ydef = Sd / np.sqrt(den)
+        for entry, c in (("coherence", fn["coherence"]), ("an.coherence", an["coherence"])):
+            c = np.asarray(c)
+            if c.shape != cdef.shape or _bad(c) or np.abs(c - cdef).max() > TOL:
+                fail(entry, "definition", "coherence is not |S_xy|^2/(S_xx S_yy) of the spectra recomputed from the definition",
+                     None if c.shape != cdef.shape or _bad(c) else float(np.abs(c - cdef).max()), 0)
+        for entry, c in (("coherency", fn["coherency"]), ("an.coherency", an["coherency"])):
+            c = np.asarray(c)
+            if c.shape != ydef.shape or _bad(c) or np.abs(c - ydef).max() > TOL:
+                fail(entry, "definition", "coherency is not S_xy/sqrt(S_xx S_yy) of the spectra recomputed from the definition",
+                     None if c.shape != ydef.shape or _bad(c) else float(np.abs(c - ydef).max()), 0)
+        for entry, p_ in (("phase", fn["phase"]), ("an.phase", an["phase"])):
+            p_ = np.asarray(p_)
+            off = ~np.eye(M, dtype=bool)
+            e = np.abs(np.exp(1j * p_) - Sd / np.abs(Sd))[off].max()
+            if not np.isfinite(e) or e > 1e-7:
+                fail(entry, "definition", "phase is not the argument of the cross-spectrum recomputed from the definition",
+                     float(e), 0)
+        if sel.any() and not _bad(cb):
+            want = np.zeros((M, M), dtype=complex)
+            stable = True
+            for i in range(M):
+                for j in range(M):
+                    a, b = min(i, j), max(i, j)
+                    ang = np.angle(Sd[a, b][sel])
+                    if np.abs(np.abs(ang) - np.pi).min() < 1e-6:
+                        stable = False      # a phase on the branch cut: the mean is ill-conditioned
+                    v = np.mean(np.abs(ydef[a, b][sel])) * np.exp(1j * np.mean(ang))
+                    want[i, j] = v if i <= j else np.conj(v)
+            if stable and np.abs(cb - want).max() > TOL:
+                fail("coherency_bavg", "definition",
+                     "band-averaged coherency is not mean|coherency| * exp(i mean phase) over the band", float(np.abs(cb - want).max()), 0)
+    elif d.get("form", "plain") != "plain":
+        # multitaper: the same numbers in contiguous layout, plain keyword call
+        import nitime.algorithms.cohere as coh
+        f_, cplain = coh.coherence(R.x0, csd_method=dict(d["method"]))
+        if np.abs(np.asarray(fn["coherence"]) - cplain).max() > 1e-9:
+            fail("coherence", "layout", "result depends on the memory layout / call form of the input",
+                 float(np.abs(np.asarray(fn["coherence"]) - cplain).max()), 0)
     # gains
     G = R.g
     if G is not None:
@@ -488,20 +663,46 @@ def oracle(R):
             a, b = np.asarray(G[key]), np.asarray(base)
             if _bad(a) and _bad(b):
                 continue
-            if a.shape != b.shape or np.abs(a - b).max() > 1e-7:
+            if a.shape != b.shape or _bad(a) or np.abs(a - b).max() > 1e-9:
                 fail(entry, "gain", "coherence changes under channel gains",
                      None if a.shape != b.shape else float(np.abs(a - b).max()), 0)
         for key, base in (("coherency", fn["coherency"]), ("an_coherency", an["coherency"])):
             a = np.asarray(G[key])
             want = np.asarray(base) * sg[:, None, None] * sg[None, :, None]
-            if np.abs(a - want).max() > 1e-7:
+            if _bad(a) or np.abs(a - want).max() > 1e-9:
                 fail(key.replace("an_", "an."), "gain-sign", "coherency under gains is not sgn(g_i) sgn(g_j) coherency",
                      float(np.abs(a - want).max()), 0)
         if R.partial_ok:
             a, b = np.asarray(G["partial"]).real, np.asarray(fn["partial"]).real
-            if np.abs(a - b).max() > 1e-6:
+            if _bad(a) or np.abs(a - b).max() > 1e-7:
                 fail("coherence_partial", "gain", "partial coherence changes under channel gains",
                      float(np.abs(a - b).max()), 0)
+            a, b = np.asarray(G["an_partial"]), np.asarray(an["partial"])
+            if _bad(a) or np.abs(a - b).max() > 1e-7:
+                fail("an.coherence_partial", "gain", "analyzer partial coherence changes under channel gains",
+                     float(np.abs(a - b).max()), 0)
+        # band-averaged coherency: |.| is unchanged; the value itself where no sign flips
+        a, b = np.asarray(G["coherency_bavg"]), np.asarray(fn["coherency_bavg"])
+        if not (_bad(a) and _bad(b)):
+            if _bad(a) or np.abs(np.abs(a) - np.abs(b)).max() > 1e-9:
+                fail("coherency_bavg", "gain", "|band-averaged coherency| changes under channel gains",
+                     float(np.abs(np.abs(a) - np.abs(b)).max()), 0)
+            elif np.all(sg > 0) and np.abs(a - b).max() > 1e-9:
+                fail("coherency_bavg", "gain", "band-averaged coherency changes under positive channel gains",
+                     float(np.abs(a - b).max()), 0)
+        # phase / delay: unchanged where sgn(g_i) sgn(g_j) > 0 (compared on the unit circle / through 2 pi f)
+        same = (sg[:, None] * sg[None, :]) > 0
+        for key, base in (("phase", fn["phase"]), ("an_phase", an["phase"])):
+            a, b = np.asarray(G[key]), np.asarray(base)
+            e = np.abs(np.exp(1j * a) - np.exp(1j * b))[same].max() if same.any() else 0
+            if e > 1e-9:
+                fail(key.replace("an_", "an."), "gain", "phase changes under channel gains of equal sign", float(e), 0)
+        if fn["delay"].shape[-1] > 0:
+            a, b = np.asarray(G["delay"]), np.asarray(fn["delay"])
+            w = 2 * np.pi * np.asarray(R.fdel)
+            e = np.abs(np.exp(1j * a * w) - np.exp(1j * b * w))[same].max() if same.any() else 0
+            if not np.isfinite(e) or e > 1e-8:
+                fail("delay", "gain", "delay changes under channel gains of equal sign", float(e), 0)
         if R.mt is not None and "mt_coherence" in G:
             a, b = np.asarray(G["mt_coherence"]), np.asarray(R.mt["coherence"])
             if np.abs(a - b).max() > 1e-7:
@@ -556,14 +757,14 @@ def klass(d, entry):
 def run(ctx):
     core.import_nitime()
     ctx.check_props()
-    # quick: 3 corpus inputs + 9 Welch + 2 multitaper + 2 adaptive multitaper + 2 periodogram
-    kinds = (["welch"] * 9 + ["mt", "mt_adaptive", "periodogram"] * 2) if ctx.quick else [None] * 90
+    # quick: 3 corpus inputs (Welch, multitaper, adaptive) + 8 Welch + 1 multitaper + 1 adaptive + 1 periodogram
+    kinds = (["welch"] * 8 + ["mt", "mt_adaptive", "periodogram"]) if ctx.quick else [None] * 90
     if os.environ.get("C08_DEV_KINDS") is not None:      # development aid: a reduced run
         kinds = [k for k in os.environ["C08_DEV_KINDS"].split(",") if k]
-    chans = [2, 3, 4, 5, 3, 2, 4, 5, 3] + [None] * len(kinds)     # quick: every channel count occurs
+    chans = [2, 3, 4, 5, 3, 2, 4, 3, 3, 3, 3] + [None] * len(kinds)     # quick: every channel count occurs
     inputs = corpus_inputs() + [gen_input(ctx.rng, ctx.quick, kind=k, M=(chans[n] if ctx.quick else None))
                                 for n, k in enumerate(kinds)]
-    big = [gen_input(ctx.rng, ctx.quick, big=True) for _ in range(ctx.scale(8, 60))]
+    big = [gen_input(ctx.rng, ctx.quick, big=True) for _ in range(ctx.scale(40, 250))]
     cases, runs = [], []
     gram_n = gram_bad = 0
     for d in inputs:
@@ -579,7 +780,7 @@ def run(ctx):
         gram_bad += b
         for entry, coq in k_cases(R):
             cases.append(Case("(" + coq + ")", {"input": d, "entry": entry}, klass(d, entry)))
-    bad = ctx.check_cases("K", HEADER, cases, "check", shard=ctx.scale(6, 12), timeout=1500, case_type="case")
+    bad = ctx.check_cases("K", HEADER, cases, "check", shard=ctx.scale(3, 8), timeout=1500, case_type="case")
     bad_inputs = {}
     for i in bad:
         c = cases[i]
@@ -610,10 +811,13 @@ def run(ctx):
     ctx.extra["model_impl_disagreements"] = len(bad)
     ctx.extra["disagreeing_entries"] = sorted({e for v in bad_inputs.values() for e in v})
     ctx.extra["oracle_contract_validations"] = {"welch Gram form (pairs)": gram_n, "failed": gram_bad}
-    ctx.extra["rule"] = ("seeded generator: 2..5 channels + a common-cause channel, lengths 64..256 in K (to 2048 oracle-only), "
-                         "Welch (even/odd NFFT, overlaps), multitaper (fixed/adaptive, NW), periodogram; mixtures with lags, tones, "
-                         "scales 0.01..1000, gains of either sign, bands incl. lb=0/ub=None/off-grid; each input yields one K case per "
-                         "entry point (functions and analyzers); every case is non-trivial (full arrays compared)")
+    ctx.extra["rule"] = ("seeded generator: 2..5 channels + a common-cause channel; lengths 64..256 in K, 64..2048 (incl. 65, 127, 257, 509, "
+                         "1025, 2047) oracle-only; Welch (even/odd NFFT 15..1024, overlaps 0..NFFT-1), multitaper (fixed/adaptive, NW), "
+                         "periodogram; mixtures with lags, tones, DC offsets; per-channel power-of-two magnitudes 2^-40..2^30 in K and "
+                         "2^-60..2^40 oracle-only; gains of either sign, small (to 2^-45) and large; Fortran / column-strided / row-strided "
+                         "inputs, method dict without 'this_method', positional vs keyword calls; bands incl. lb=0 / ub=None / off-grid / "
+                         "exactly on the grid; each K input yields one case per entry point (functions and analyzers); references of the "
+                         "oracle are recomputed from the definition with numpy FFT for Welch and periodogram")
     return ctx.finish(
         trusted=["the spectral estimators (mlab.csd via get_spectra, multi_taper_csd, periodogram_csd, mtm_cross_spectrum, dpss) "
                  "are oracles: their output is data; their Gram form / bilinearity is a hypothesis of the theorems, validated "
